@@ -10,7 +10,7 @@ Relations exercised on every run
 
 Document representation (JSON friendly; also the replay format)
   atom : ["i", n] | ["r", "p/q"] | ["n", "Name"] | ["R", objid] | ["null"]
-  val  : atom | ["a", [atom, ...]] | ["d", [[key, atom], ...]]
+  val  : atom | ["a", [elem, ...]] | ["d", [[key, atom], ...]]      elem : atom | ["d", [[key, atom], ...]]
   obj  : ["D", [[key, val], ...]]  (a dictionary object: page-tree node, indirect Resources ...)  | val
   doc  : {"catalog": [[key, val], ...], "objs": [[objid, obj], ...], "glyph": {pageid: ["tx","ty"]}, "kind": ...}
 Objects 1 (catalog), 3 (Helvetica), 4 (font dictionary << /F1 3 0 R >>) and the content streams are added by
@@ -43,7 +43,10 @@ RULE = ("documents: page trees of <= 60 nodes generated as real PDFs (chains up 
         "drops >= 1 page")
 TRUSTED_BASE = [
     "tools/translate/gen_c04.py (Python ast -> Lean) for INHERITABLE_ATTRS, the Rotate normalisation arithmetic of "
-    "PDFPage.__init__, the US-Letter default, the process_page rotation->CTM table and begin_page's box; every "
+    "PDFPage.__init__, the rotation option of extract_text_to_fp, the US-Letter default, _normalize_rect, the "
+    "process_page rotation->CTM table, begin_page's box and the tests of the overlay loop and of the get_pages loop; "
+    "the statement skeletons of depth_first_search, of the tail of create_pages and of the get_pages loop, and the "
+    "page_numbers/maxpages plumbing of extract_text/extract_pages/extract_text_to_fp are asserted on the AST; every "
     "translated definition is also run against pdfminer",
     "hand model lean/PdfVerif/Model/PageTree.lean of create_pages.depth_first_search, the fallback scan, "
     "PDFPage.__init__ and get_pages (correspondence-checked on generated documents)",
@@ -52,9 +55,9 @@ TRUSTED_BASE = [
     "exact rationals stand for Python floats (generated coordinates are dyadic, so the float arithmetic is exact)",
 ]
 ASSUMPTIONS = [
-    "Kids entries are indirect references (or integers naming existing objects); Type values are direct names; "
-    "a dictionary written directly into a Kids array (handled by the code: Page yielded with pageid None, Pages "
-    "ignored) is outside the model's value space and not generated",
+    "property domain: Kids entries are indirect references; Type values are direct names. Integer kids, dictionaries "
+    "written directly into Kids or as catalog Pages (Page yielded with pageid None, Pages ignored), atoms in Kids "
+    "are modelled and generated for the tie; dictionary values are atoms or arrays (a direct dictionary holds atoms)",
     "the catalog itself carries no inheritable attribute (property domain: trees of Pages/Page nodes); "
     "catalog-level attributes are generated for the model/implementation tie only",
     "Rotate values are integers; boxes are arrays of numbers (other types get the default box / 0: tie only)",
@@ -70,17 +73,26 @@ STATEMENT_STATUS: Dict[str, str] = {
     "C04_driver_domain": "proved: documents accepted by the driver's spec.pages satisfy the hypotheses of C04_pages",
     "C04_catalog_attr_cex": "proved counter-example showing the catalog hypothesis is needed (catalog-level Rotate "
                             "is inherited by the code; outside the property's domain of Pages/Page trees)",
-    "C04_terminates": "proved: on every finite graph recursion budget |nodes|+1 is never exhausted, no node is "
-                      "visited twice, no page is yielded twice; NOT proved: that on a cyclic graph every reachable "
-                      "page is yielded in first-visit order (harness only)",
+    "C04_terminates": "proved for every object graph (no finiteness hypothesis left: the store is a finite list): "
+                      "recursion budget #objects+1 never exhausted, no node visited twice, no object yielded twice",
+    "C04_graph": "proved (was harness-only): when the walk ends normally everything reachable along Kids is visited, "
+                 "the yielded indirect pages are exactly the visited Page nodes in first-visit order, every reachable "
+                 "Page is yielded exactly once",
+    "C04_graph_inherit": "proved (was harness-only): on any graph each yielded page's attributes are its own or the "
+                         "nearest definer's on the Kids chain along which it is first reached",
+    "C04_resolve_total": "proved: resolve1's loop with its seen set never exhausts #objects+1 (the fixed chain "
+                         "limit 8 of round 1 is gone)",
     "C04_rotate": "proved for every integer Rotate",
-    "C04_page_values": "proved: every constructed page has 0 <= rotate < 360 and normalised MediaBox/CropBox",
+    "C04_rotation_option": "proved for all integers: extract_text_to_fp(rotation=) arithmetic (regenerated)",
+    "C04_page_values": "proved unconditionally: every constructed page has 0 <= rotate < 360 and normalised boxes",
     "C04_box_normalised": "proved: regenerated _normalize_rect",
     "C04_ctm": "proved: Rotate in {0,90,180,270}, every MediaBox and point over Q (regenerated table)",
     "C04_ctm_bbox": "proved: LTPage.bbox = (0,0,w',h') for normalised MediaBox (regenerated begin_page)",
     "C04_ctm_corners": "proved: corners move clockwise by Rotate/90 places",
     "C04_render": "proved: harness observation (bbox + glyph matrix) = specification",
-    "C04_select": "proved: maxpages natural (0 = no limit), empty page_numbers = all",
+    "C04_select": "proved on the regenerated loop tests: maxpages natural (0 = no limit), empty page_numbers = all",
+    "C04_select_pending": "proved (was defined by fiat): a pending exception of create_pages is raised by get_pages "
+                          "iff the index of the failing page is below the limit",
     "C04_select_pinned_cex": "proved counter-example for the pinned loop (page_numbers={5}, maxpages=2); fixed in 262fbfd",
 }
 
@@ -135,7 +147,7 @@ def val_to_w(v):
     if is_atom(v):
         return atom_to_w(v)
     if v[0] == "a":
-        return [atom_to_w(a) for a in v[1]]
+        return [val_to_w(a) for a in v[1]]
     if v[0] == "d":
         return {k: atom_to_w(a) for k, a in v[1]}
     raise ValueError(v)
@@ -194,7 +206,7 @@ def val_txt(v) -> str:
     if is_atom(v):
         return atom_txt(v)
     if v[0] == "a":
-        return "[ " + "".join(atom_txt(a) + " " for a in v[1]) + "]"
+        return "[ " + "".join(val_txt(a) + " " for a in v[1]) + "]"
     if v[0] == "d":
         return "{ " + "".join(f"{k} {atom_txt(a)} " for k, a in v[1]) + "}"
     raise ValueError(v)
@@ -314,6 +326,22 @@ def impl_extract_pages(data: bytes, sel, maxpages: int) -> str:
         return "EXC:" + type(e).__name__
 
 
+def impl_xml_boxes(data: bytes, sel, maxpages: int, rotation: int) -> List[str]:
+    """extract_text_to_fp(output_type='xml', rotation=…): the bbox attribute of every <page> element."""
+    import re
+    from pdfminer.high_level import extract_text_to_fp
+    out = io.BytesIO()
+    try:
+        extract_text_to_fp(io.BytesIO(data), out, output_type="xml", laparams=None, maxpages=maxpages,
+                           page_numbers=sel, rotation=rotation)
+    except Exception as e:  # noqa: BLE001
+        return ["EXC:" + type(e).__name__]
+    res = []
+    for m in re.finditer(rb'<page id="[^"]*" bbox="([^"]*)"', out.getvalue()):
+        res.append(box_txt([F(x.decode()) for x in m.group(1).split(b",")]))
+    return res
+
+
 # ------------------------------------------------------------------ executable specification (Python twin of Spec/PageTree.lean)
 
 class SpecError(Exception):
@@ -322,11 +350,13 @@ class SpecError(Exception):
 
 def resolve(objs, v, depth=0):
     """resolve1: follow references (a missing object is null, and so is a circular chain)."""
+    seen = set()
     while is_atom(v) and v[0] == "R":
-        if depth > 64:
+        n = int(v[1])
+        if n in seen:
             return ["null"]
-        depth += 1
-        v = objs.get(int(v[1]), ["null"])
+        seen.add(n)
+        v = objs.get(n, ["null"])
         if v[0] == "D":
             return v
     return v
@@ -394,17 +424,17 @@ def spec_walk(doc) -> List[Tuple[int, Dict[str, Any]]]:
     stack: List[Tuple[Any, Dict[str, Any]]] = [(root, {})]
     while stack:
         ref, inherited = stack.pop()
-        if ref[0] == "R":
+        if ref[0] in ("R", "i"):
             nid = int(ref[1])
-        elif ref[0] == "i":
-            nid = int(ref[1])
+            node = resolve(objs, ["R", nid])
+            if nid in seen:
+                continue
+            seen.add(nid)
         else:
-            raise SpecError("kid is not a reference")
-        node = resolve(objs, ["R", nid])
-        if nid in seen:
-            continue
-        seen.add(nid)
-        pairs = node[1] if node[0] == "D" else []
+            # not an indirect object: no object number; a dictionary is taken as it is, anything else is {}
+            nid = None
+            node = ["D", [[k, a] for k, a in ref[1]]] if ref[0] == "d" else ["null"]
+        pairs = node[1] if node[0] in ("D", "d") else []
         attrs = dict(inherited)
         for k in INH:
             v = dget(pairs, k)
@@ -413,6 +443,8 @@ def spec_walk(doc) -> List[Tuple[int, Dict[str, Any]]]:
         t = node_type(pairs)
         kids = dget(pairs, "Kids")
         if t == "Pages" and kids is not None:
+            if nid is None:
+                continue        # a Pages node that is not an indirect object is ignored
             kv = resolve(objs, kids)
             ks = kv[1] if kv[0] == "a" else []
             for kid in reversed(ks):
@@ -767,7 +799,8 @@ def add_wild(rng, doc, ctx=None) -> None:
     for _ in range(rng.randint(1, 3)):
         kind = rng.choice(["catalog-attr", "rotate-type", "type-unknown", "type-missing", "no-kids", "dangling-kid",
                            "int-kid", "box-name", "box-null", "box-int", "no-pages", "orphans", "ref-chain",
-                           "null-attr", "atom-kid", "ref-cycle", "pages-array"])
+                           "null-attr", "atom-kid", "ref-cycle", "pages-array", "direct-kid", "direct-kid",
+                           "pages-direct", "long-chain"])
         if ctx is not None:
             ctx.branch("wild:" + kind)
         n = rng.choice(nodes) if nodes else None
@@ -832,6 +865,34 @@ def add_wild(rng, doc, ctx=None) -> None:
                     ks.append(["R", a])
             else:
                 pairs[:] = [p for p in pairs if p[0] != k] + [[k, ["R", a]]]
+        elif kind == "direct-kid":
+            inner = [x for x in nodes_of(doc, "Pages") if kids_list(doc, x) is not None]
+            if inner:
+                ks = kids_list(doc, rng.choice(inner))
+                pairs = [[rng.choice(["Type", "Type", "type"]), ["n", rng.choice(["Page", "Page", "Pages", "Font"])]]]
+                if rng.random() < 0.5:
+                    pairs.append(["Rotate", ["i", rng.choice([0, 90, -90, 450])]])
+                if rng.random() < 0.4:
+                    pairs.append(["MediaBox", put(["a", [["i", 1], ["i", 2], ["r", "201/2"], ["i", 300]]])])
+                if rng.random() < 0.4:
+                    pairs.append(["Kids", rng.choice([["R", doc["root"]], put(["a", [["R", doc["root"]]]])])])
+                rng.shuffle(pairs)
+                ks.insert(rng.randint(0, len(ks)), ["d", pairs])
+        elif kind == "pages-direct":
+            pairs = [["Type", ["n", rng.choice(["Page", "Pages", "Pages"])]], ["Rotate", ["i", 180]]]
+            if rng.random() < 0.6:
+                pairs.append(["Kids", put(["a", [["R", doc["root"]]]])])
+            doc["catalog"][:] = [p for p in doc["catalog"] if p[0] != "Pages"] + [["Pages", ["d", pairs]]]
+        elif kind == "long-chain" and n is not None:
+            # an attribute reached through a chain of 9..14 references (longer than any fixed small bound)
+            pairs = objs[n][1]
+            for p in pairs:
+                if p[0] in INH and is_atom(p[1]):
+                    v = p[1]
+                    for _ in range(rng.randint(9, 14)):
+                        v = put(v)
+                    p[1] = v
+                    break
         elif kind == "pages-array":
             doc["catalog"][:] = [p for p in doc["catalog"] if p[0] != "Pages"] + [["Pages", ["a", [["R", doc["root"]]]]]]
         elif kind == "no-pages":
@@ -884,9 +945,15 @@ def gen_selections(rng, npages: int) -> List[Tuple[Optional[List[int]], int]]:
 
 # ------------------------------------------------------------------ one document: tie + property
 
+def page_letter(line: str) -> str:
+    """The glyph of the page described by a canonical page line ('.' for a page that is not an indirect object)."""
+    w = line.split(" ")[0]
+    return page_char(int(w)) if w != "None" else "."
+
+
 def parse_page_line(s: str):
     w = s.split(" ")
-    return int(w[0]), int(w[1]), tuple(F(x) for x in w[2:6]), tuple(F(x) for x in w[6:10]), w[10]
+    return (int(w[0]) if w[0] != "None" else None), int(w[1]), tuple(F(x) for x in w[2:6]), tuple(F(x) for x in w[6:10]), w[10]
 
 
 def doc_tags(doc, extra=None) -> Dict[str, Any]:
@@ -914,8 +981,9 @@ def doc_tags(doc, extra=None) -> Dict[str, Any]:
 class DocCheck:
     """Everything observed for one document; collects driver request lines for a later batch."""
 
-    def __init__(self, ctx: C.Ctx, doc, sels=None):
+    def __init__(self, ctx: C.Ctx, doc, sels=None, rotation=None):
         self.ctx = ctx
+        self.rotation = rotation
         self.doc = doc
         self.in_domain = doc.get("kind") in ("tree", "graph")
         self.data = build(doc)
@@ -923,11 +991,13 @@ class DocCheck:
         self.requests: List[Tuple[str, str, str, Any]] = []   # (line, impl reply, op, input)
         self.sels = sels
 
-    def fail(self, what, expected, got, tags=None, sel=None):
+    def fail(self, what, expected, got, tags=None, sel=None, rotation=None):
         if self.first_fail is None:
             inp = {"doc": self.doc}
             if sel is not None:
                 inp["selection"] = {"page_numbers": sel[0], "maxpages": sel[1]}
+            if rotation is not None:
+                inp["rotation"] = rotation
             self.first_fail = C.Failure(what, inp, expected, got, doc_tags(self.doc, tags))
 
     def req(self, line, impl, op, inp=None):
@@ -995,15 +1065,37 @@ class DocCheck:
                               {"op": "select", "beyond_limit": beyond}, sel=(sel, mp))
                 if idx < 2 or (beyond and idx < 4):
                     txt = impl_text(data, container, mp)
-                    exp_txt = "".join(page_char(int(s.split(" ")[0])) for s in exp_sel) or "-"
+                    exp_txt = "".join(page_letter(s) for s in exp_sel) or "-"
                     self.ctx.branch("extract_text")
                     if self.in_domain and txt != exp_txt:
                         self.fail("extract_text(page_numbers, maxpages) does not write exactly the selected pages "
                                   "below the limit, in order", exp_txt, txt,
                                   {"op": "select", "via": "extract_text", "beyond_limit": beyond}, sel=(sel, mp))
+                if idx == 2 or (idx == 0 and (n <= 3 or self.rotation is not None)):
+                    rotation = self.rotation if self.rotation is not None else \
+                        rng.choice([0, 90, 180, 270, -90, 450, 540, 45])
+                    boxes = impl_xml_boxes(data, container, mp, rotation)
+                    self.ctx.branch(f"rotation-option:{rotation}")
+                    if len(boxes) != len(exp_sel) and self.in_domain:
+                        self.fail("extract_text_to_fp(page_numbers, maxpages, rotation) does not write exactly the "
+                                  "selected pages below the limit", len(exp_sel), boxes,
+                                  {"op": "select", "via": "extract_text_to_fp", "beyond_limit": beyond}, sel=(sel, mp),
+                                  rotation=rotation)
+                    for line, got_box in zip(exp_sel, boxes):
+                        pid, rot, mb, cb, marker = parse_page_line(line)
+                        self.req(f"xmlbox {rot} {rotation} {box_txt(mb)}", got_box, "xmlbox",
+                                 {"rotate": rot, "rotation": rotation, "mediabox": [str(x) for x in mb]})
+                        tot = (rot + rotation) % 360
+                        if self.in_domain and tot % 90 == 0:
+                            w_, h_ = mb[2] - mb[0], mb[3] - mb[1]
+                            want_box = box_txt((0, 0, w_, h_) if tot % 180 == 0 else (0, 0, h_, w_))
+                            if want_box != got_box:
+                                self.fail("extract_text_to_fp(rotation=): the page is not turned by Rotate + rotation",
+                                          want_box, got_box, {"op": "rotation-option", "rotate": rot,
+                                                              "rotation": rotation}, sel=(sel, mp), rotation=rotation)
                 if idx == 1:
                     ep = impl_extract_pages(data, container, mp)
-                    exp_ep = ";".join(page_char(int(s.split(" ")[0])) for s in exp_sel) or "-"
+                    exp_ep = ";".join(page_letter(s) for s in exp_sel) or "-"
                     got_ep = ";".join(x.split(":")[-1] for x in ep.split(";")) if not ep.startswith("EXC") else ep
                     self.ctx.branch("extract_pages")
                     if self.in_domain and got_ep != exp_ep:
@@ -1048,6 +1140,7 @@ def shrink_doc(ctx: C.Ctx, chk: DocCheck, rng) -> C.Failure:
     doc = chk.doc
     sel = f0.input.get("selection")
     sels = [(sel["page_numbers"], sel["maxpages"])] if sel else [(None, 0)]
+    rotation = f0.input.get("rotation")
     items: List[Tuple[str, int, Any]] = []
     for k, o in doc["objs"]:
         if o[0] != "D":
@@ -1079,7 +1172,7 @@ def shrink_doc(ctx: C.Ctx, chk: DocCheck, rng) -> C.Failure:
     def still(keep):
         d = make(keep)
         try:
-            c2 = DocCheck(_Null(), d, sels)   # type: ignore[arg-type]
+            c2 = DocCheck(_Null(), d, sels, rotation)   # type: ignore[arg-type]
             c2.run(rng)
         except Exception:  # noqa: BLE001
             return False
@@ -1106,7 +1199,7 @@ def shrink_doc(ctx: C.Ctx, chk: DocCheck, rng) -> C.Failure:
             mark(d["catalog"])
             d["objs"] = [[k, o] for k, o in d["objs"] if int(k) in reach]
             d["glyph"] = {k: v for k, v in d.get("glyph", {}).items() if int(k) in reach}
-            c2 = DocCheck(_Null(), d, sels)   # type: ignore[arg-type]
+            c2 = DocCheck(_Null(), d, sels, rotation)   # type: ignore[arg-type]
             c2.run(rng)
             if c2.first_fail is not None and c2.first_fail.tags.get("op") == f0.tags.get("op"):
                 return c2.first_fail
@@ -1142,8 +1235,8 @@ def flush(ctx: C.Ctx, checks: List[DocCheck]) -> None:
                 ctx.disagree(op, inp if inp is not None else line, impl, m)
 
 
-def check_doc(ctx: C.Ctx, doc, pending: List[DocCheck], sels=None) -> DocCheck:
-    chk = DocCheck(ctx, doc, sels)
+def check_doc(ctx: C.Ctx, doc, pending: List[DocCheck], sels=None, rotation=None) -> DocCheck:
+    chk = DocCheck(ctx, doc, sels, rotation)
     chk.run(ctx.rng)
     n = len(chk.items)
     objs = objs_of(doc)
@@ -1321,7 +1414,7 @@ def replay(ctx: C.Ctx, doc, from_corpus: bool = False, pending=None) -> None:
     if "doc" in inp:
         sel = inp.get("selection")
         sels = [(sel["page_numbers"], sel["maxpages"])] if sel else None
-        check_doc(ctx, inp["doc"], pending, sels=sels)
+        check_doc(ctx, inp["doc"], pending, sels=sels, rotation=inp.get("rotation"))
     elif "render" in inp:
         r = inp["render"]
         run_render_one(ctx, int(r["rotate"]), tuple(F(x) for x in r["mediabox"]), tuple(F(x) for x in r["pt"]))
